@@ -20,6 +20,15 @@ CHECKS = {
         note='Trusted: Lean kernel + standard axioms, harness/c15.py; scipy distributions are parameters (affine percent-point '
              'stubs); priors with zero free parameters are outside the domain (unit cube of dimension 0).',
         tech='Lean 4 proof + exhaustive differential of declaration words', ref='DESIGN.md §3 C15'),
+    'C13': dict(
+        text='Lean 4 theorems over all operation sequences and all oracle answers: the four per-ellipsoid records stay aligned '
+             'and consistent, split members have >= n_points_min points, points are conserved (minus trimmed members), a '
+             'successful split never increases summed volume, refused operations change nothing but flags, no operation '
+             'raises; model tied to union.py by exhaustive operation words replayed on real Union objects with observed oracles.',
+        note='Trusted: Lean kernel + standard axioms, harness/c13.py (outside instrumentation); GaussianMixture / MVEE / overlap '
+             'test / densities are oracles (theorems hold for every answer); volume clause assumes the float comparison '
+             'logsumexp(new) > old agrees with the exact one.',
+        tech='Lean 4 proof (invariant induction over ops, all oracles) + exhaustive observed-oracle replay', ref='DESIGN.md §3 C13'),
     'C14': dict(
         text='Lean 4 theorems: multiplicity is floor(r) or floor(r)+1, up-rounding iff u < fract r, Lebesgue and finite-grid '
              'expectation exactly r, no duplicates for boost<=1, zero weights dropped, order/alignment of repeated rows, equal '
@@ -29,7 +38,7 @@ CHECKS = {
         tech='Lean 4 proof + AST translator + scripted-RNG exact differential', ref='DESIGN.md §3 C14'),
 }
 
-READY = ['C14', 'C15', 'C16']
+READY = ['C13', 'C14', 'C15', 'C16']
 
 PENDING_REASON = 'check under construction in this build round; not yet registered (see DESIGN.md §6 build order)'
 
